@@ -350,7 +350,7 @@ OnExit(s, e) ==
        ELSE IF F.ph = "jbad" THEN
             \* Freedom: a float JSON cannot hold is either reported (the pinned code) or becomes null as in From<Value<V>> - no property
             \* says which; what may not happen is a report together with Ok, or any other document
-            IF e.ok THEN (IF F.since = {} /\ e.val = RV("json", FALSE, 0, DZero, "", "", <<BackOf(F.val)>>)
+            IF e.ok THEN (IF F.since = {} /\ JsonRVAgrees(BackOf(F.val), e.val)
                           THEN [s1 EXCEPT !.waived = @ \o LET ls == LeavesAsSeq(NonFiniteLeaves(F.val, F.loc)) IN [j \in 1..Len(ls) |-> Desc("unexpected", ls[j], "", 0, NullV, {})]]
                           ELSE Flag(s, {"C13", "C01"}, "a serde_json::Value target returns Ok after a report, or another document than the payload (non-finite floats as null)"))
             ELSE IF bagok THEN s1 ELSE Flag(s, {"C01"} \cup KeepGoing(s), "the returned error is not made of exactly the reports made since the call was entered")
